@@ -370,4 +370,24 @@ AccM(f, u) ==
     [] f = "str" -> OptR(Str(u))
     [] f = "is_default_port" -> (LET ep == ExplicitPort(u) IN IF ~IsOK(ep) THEN [exc |-> "ValueError"]
                         ELSE [ok |-> IF IsNone(ep.ok) THEN u.netloc # <<>> ELSE ep.ok = DefaultPortOf(u.scheme)])
+
+\* ------------------------------------------------------------------ URL.human_repr
+\* printable: the code points str.isprintable() accepts among those involved (environment data of the record).
+\* IDN hosts (decoded through the idna package) are outside the model: gray.
+HQ(t, unsafe, printable) == HumanQuote(t, unsafe, {c \in Range(t) : c \notin printable})
+HumanRepr(u, printable) ==
+  LET np == NetlocParts(u) IN
+  IF ~IsOK(np) THEN np
+  ELSE LET p == np.ok
+           hostGray == ~IsNone(p.host) /\ (~IsAscii(Get(p.host)) \/ \E i \in 1..(Len(Get(p.host)) - 3) : SubSeq(LowerS(Get(p.host)), i, i + 3) = <<120, 110, 45, 45>>) IN
+       IF hostGray THEN GRAY
+       ELSE LET user == IF IsNone(p.user) THEN NONE ELSE SOME(HQ(UnqPlain(Get(p.user)), UserinfoUnsafe, printable))
+                pw == IF IsNone(p.password) THEN NONE ELSE SOME(HQ(UnqPlain(Get(p.password)), UserinfoUnsafe, printable))
+                host == IF IsNone(p.host) THEN NONE ELSE SOME(IF Has(Get(p.host), COLON) THEN <<LBR>> \o Get(p.host) \o <<RBR>> ELSE Get(p.host))
+                path == HQ(PathDecoded(u), PathUnsafe, printable)
+                pairs == IF BadRun(u.query, 1) THEN <<>> ELSE QueryPairs(u.query)
+                qs == JoinWith([i \in 1..Len(pairs) |-> HQ(pairs[i][1], QueryUnsafe, printable) \o <<EQ>> \o HQ(pairs[i][2], QueryUnsafe, printable)], AMP)
+                frag == HQ(IF u.fragment # <<>> THEN UnqPlain(u.fragment) ELSE <<>>, {}, printable) IN
+            IF BadRun(u.query, 1) THEN GRAY
+            ELSE OK(UnsplitResult(u.scheme, MakeNetloc(user, pw, host, OptPortText(p.port), FALSE), path, qs, frag))
 =============================================================================
